@@ -63,7 +63,7 @@ const AXES: [(&str, &str, f64, f64, f64); 4] = [
 ];
 
 /// Directed cases come first in the stream (indices 0..DIRECTED), then seeded random ones.
-pub const DIRECTED: usize = 9;
+pub const DIRECTED: usize = 10;
 
 fn wght() -> AxisSrc {
     AxisSrc { name: "Weight".into(), label: None, tag: "wght".into(), min: 100.0, default: 400.0, max: 900.0 }
@@ -72,8 +72,8 @@ fn wght() -> AxisSrc {
 fn directed(i: usize) -> Case {
     let s = |x: &str| x.to_string();
     match i {
-        // F2 witness: family name == default instance's style name == style name.
-        // After the fallback chain: id1 = id2 = "Regular"; which of the two `find_map` meets first decides.
+        // F2 witness (f2Witness in FontcProps/C18.lean): family name == default instance's style name == style name.
+        // After the fallback chain: id1 = id2 = "Regular"; before c4dd162 which of the two `find_map` met first decided.
         0 => Case {
             adds: vec![(16, s("Regular")), (17, s("Regular"))],
             vendor: s("NONE"),
@@ -82,7 +82,7 @@ fn directed(i: usize) -> Case {
             runs: 64,
             ..Default::default()
         },
-        // default instance named like the family: reserved id 1 ends up in fvar
+        // reservedWitness: default instance named like the family (before 6370354 reserved id 1 ended up in fvar)
         1 => Case {
             adds: vec![(16, s("Fam")), (17, s("Regular"))],
             vendor: s("NONE"),
@@ -91,8 +91,8 @@ fn directed(i: usize) -> Case {
             runs: 8,
             ..Default::default()
         },
-        // the source supplies font-specific name id 256 = "Weight"; the allocator hands 256 out again for "Width"
-        // (clashWitness in FontcProps/C18.lean): one of the two axis names no longer resolves
+        // clashWitness: the source supplies font-specific name id 256 = "Weight"; before ba69b97 the allocator handed 256
+        // out again for "Width" and one of the two axis names no longer resolved
         2 => Case {
             adds: vec![(16, s("Fam")), (17, s("Regular")), (256, s("Weight"))],
             vendor: s("NONE"),
@@ -101,7 +101,7 @@ fn directed(i: usize) -> Case {
             runs: 16,
             ..Default::default()
         },
-        // same root, other symptom: source id 256 = "Custom" is overwritten by the axis name, or survives and fvar panics
+        // same root, other symptom (before ba69b97): source id 256 = "Custom" overwritten by the axis name, or fvar panicked
         8 => Case {
             adds: vec![(16, s("Fam")), (17, s("Regular")), (256, s("Custom"))],
             vendor: s("NONE"),
@@ -149,6 +149,16 @@ fn directed(i: usize) -> Case {
             vendor: s("NONE"),
             axes: vec![wght()],
             insts: vec![InstSrc { name: s("Black"), ps: None, loc: vec![900.0] }],
+            runs: 8,
+            ..Default::default()
+        },
+        // outside the property's domain (LabelsNonempty): an instance whose style name is the empty string.
+        // Recorded to show what the real code does there: an empty name record is written and referenced, no failure.
+        9 => Case {
+            adds: vec![(16, s("Fam")), (17, s("Regular"))],
+            vendor: s("NONE"),
+            axes: vec![wght()],
+            insts: vec![InstSrc { name: s(""), ps: None, loc: vec![700.0] }, InstSrc { name: s("Regular"), ps: None, loc: vec![400.0] }],
             runs: 8,
             ..Default::default()
         },
